@@ -194,7 +194,9 @@ func (rc *LRURevisionCache) Peek(ctx context.Context, docID string, versionStrin
 	if value == nil {
 		return DocumentRevision{}, false
 	}
+	value.lock.RLock()
 	docRev, err := value.asDocumentRevision(nil)
+	value.lock.RUnlock()
 	if err != nil {
 		return DocumentRevision{}, false
 	}
@@ -467,9 +469,8 @@ func (value *revCacheValue) load(ctx context.Context, backingStore RevisionCache
 	// Attempt to read cached value.
 	value.lock.RLock()
 	if value.bodyBytes != nil || value.err != nil {
-		value.lock.RUnlock()
-
 		docRev, err = value.asDocumentRevision(delta)
+		value.lock.RUnlock()
 
 		return docRev, true, err
 	}
@@ -574,8 +575,8 @@ func (value *revCacheValue) loadForDoc(ctx context.Context, backingStore Revisio
 	var revid string
 	value.lock.RLock()
 	if value.bodyBytes != nil || value.err != nil {
-		value.lock.RUnlock()
 		docRev, err = value.asDocumentRevision(nil)
+		value.lock.RUnlock()
 
 		return docRev, true, err
 	}
